@@ -15,8 +15,17 @@ P = {
         "(c19_scaled_close: |number*10^scale - v| <= 10^-4 in exact arithmetic); for the code as written REFUTED (0.29 -> 0.28, c19_scaled_close_refuted) "
         "and PARTIAL (c19_scaled_close_partial: holds whenever the shortest decimal form of v has >= 4 fractional digits); REFUTED above 2^53/10^4 for both "
         "members (c19_bound_refuted; stays a known finding: the clause's bound 10^14 is unattainable in binary64). "
-        "Durations n*100 ms: PROVED exact below 3277 days, either sign, all n (c19_duration_exact, c19_duration_exact_signed, omega); "
-        "REFUTED from 3277 days on (library switches to approximate years/months; known finding). "
+        "Durations n*100 ms: PROVED exact below 3277 days, either sign, all n (c19_duration_exact, c19_duration_exact_signed, omega), and the bound is exact: "
+        "3277 days is the least duration that does not survive (c19_duration_threshold_exact); REFUTED from 3277 days on (library switches to approximate "
+        "years/months; known finding). The SPINE TEXT in between is now inside the model (Spine.DurText, a byte-level transcription of rickb777/date/period: "
+        "period64.String, period.Parse with its scanner, the Unready/Armed/Set automaton of the seven designators, the fraction rule, weeks, normalise64, toPeriod, "
+        "DurationApprox incl. int64 wrap-around): PROVED for every int64 duration (any sign, any fraction of 100 ms, below and above 3277 days; hypothesis Dur.monthsOk, which holds below 3277 days and excludes, above, a band of relative width 1e-6 where the library's signed months field is -1 and the text written is not even readable - c19_duration_text_negative_months, found by the text comparison of this round, inside the known finding) that the text "
+        "NewDurationType writes is accepted by GetTimeDuration and read as exactly DurationApprox(NewOf d) (c19_duration_text_refines_fields: the text level "
+        "refines the field level, formerly assumption A-period), hence clause (c) on the text for all multiples of 100 ms below 3277 days, either sign "
+        "(c19_duration_text_exact), exact truncation of a fraction of 100 ms (c19_duration_text_truncates), the refutation from 3277 days on as texts "
+        "(c19_duration_text_ge_3277_days_refuted: P8Y11M20D) and, outside the statement, the wrap-around of texts above 292 years (c19_duration_text_wraps). "
+        "Sentence 1 needs a magnitude bound although the statement has none: 2^53 and 2^53+1 are one double (c19_scaled_exact_needs_bound); proved bound 2^50, "
+        "region up to the first colliding pair for d = 1..4 neither proved nor refuted (design/audit-C19.md). "
         "Relative end time of a time period: PROVED to the second for all instants and durations, incl. the JSON round trip "
         "(c19_period_le_second, c19_period_at_once, c19_period_json); decoding a period document is a function of the document and the clock only, never of "
         "what the Go value held before (c19_period_decode_history_independent, c19_period_decode_relative - trivial in the model, tied to UnmarshalJSON by "
@@ -35,7 +44,13 @@ P = {
         "model's answers for the positive half through the proved sign symmetry), random decimals up to 2^50, random doubles across magnitudes; "
         "the intermediate 'decimals' and 'product' are recomputed by the harness with the same Go expressions the code uses (they tie the model's "
         "decimals count and product to strconv/math, they are not read out of the code). The driver additionally asserts IsRnd on every rounding. "
-        "Trusted: Lean kernel; hand-written models Spine.Num / Spine.Dur / Spine.TP; harness and monitor; A-strconv, A-period, A-time. "
+        "Durations, text level: the text of every duration of the dense sweep (every multiple of 100 ms to 55 h / 23 days, strided to 400 days, both signs) is "
+        "compared BYTE FOR BYTE with Spine.DurText.render (by digest, together with the value read back through Spine.DurText.parse), single values up to 292 years "
+        "with an independent ISO 8601 reader as SPEC monitor (key duration-text-denotes-other); period.Parse / GetTimeDuration are compared with Spine.DurText.parse "
+        "(error or duration in ns + normalised text) on every written text, on the exhaustive grid of all 127 designator subsets x 6 number patterns x 2 signs and on "
+        "30 000 / 300 000 random well-formed (75 %) and damaged texts (floors on accepted / refused). Texts with a digit run above 12 are outside the model (answer "
+        "'range', counted). Clause-by-clause audit: design/audit-C19.md. "
+        "Trusted: Lean kernel; hand-written models Spine.Num / Spine.Dur / Spine.DurText / Spine.TP; harness and monitor; A-strconv, A-time (A-period only for %g of float32 inside writeField64, tied by the run). "
         "Values outside the model (subnormals, |v| >= 9.2e14 where value*10^4 overflows int64, NaN/Inf) are monitored only or excluded. "
         "The monitor judges clause (b) on the exact representation number*10^scale; for the double read back it allows the spacing of doubles at v in addition "
         "(above 2^39 that spacing alone exceeds 0.0001). The time-period monitor brackets the code's own clock readings with the harness clock."
@@ -44,12 +59,12 @@ P = {
     "generated_props": ["Spine.Props.C19Layouts"],
     "generated": ["timelayouts"],
     "generated_files": ["TimeLayouts.lean"],
-    "lemma_modules": ["Spine.C19", "Spine.RndSound", "Spine.C19Exec"],
+    "lemma_modules": ["Spine.C19", "Spine.RndSound", "Spine.C19Exec", "Spine.DurText", "Spine.DurTextThm"],
     "drivers": ["drv_num"],
     "tests": [{"name": "TestNumeric"}],
     "trusted_base": [
-        "models Spine.Num (binary64 as integers), Spine.Rnd.IsRnd (IEEE-754 round-to-nearest-even as a relation, normal range, exponent unbounded), Spine.Dur (period.NewOf / DurationApprox of rickb777/date v1.21.1), Spine.TP (time.Time.Round / Duration.Round to the second) written by hand from model/commondatatypes_additions.go and the library source",
-        "A-strconv: strconv.FormatFloat(v,'f',-1,64) yields the least number of decimals that round-trips (checked against the model's count on every generated value); A-period: period.Parse(p.String()) has the same DurationApprox as p; A-time: time.Format/Parse/Round and calendar arithmetic as documented",
+        "models Spine.Num (binary64 as integers), Spine.Rnd.IsRnd (IEEE-754 round-to-nearest-even as a relation, normal range, exponent unbounded), Spine.Dur (period.NewOf / DurationApprox of rickb777/date v1.21.1), Spine.DurText (period64.String / period.Parse / normalise64 / toPeriod / DurationApprox of the same library at the level of bytes), Spine.TP (time.Time.Round / Duration.Round to the second) written by hand from model/commondatatypes_additions.go and the library source",
+        "A-strconv: strconv.FormatFloat(v,'f',-1,64) yields the least number of decimals that round-trips (checked against the model's count on every generated value); A-period (now a theorem over Spine.DurText for every period NewOf builds, c19_duration_text_refines_fields; what remains assumed is that fmt's %g of float32(field)/10 prints the decimal i.f, compared on every run); A-time: time.Format/Parse/Round and calendar arithmetic as documented",
         "decide +kernel for 53-bit witnesses (kernel GMP arithmetic incl. Nat.log2, no extra axiom); Mathlib tactic modules (Linarith, Positivity, NormNum, Ring, Zify) in the lemma files Spine/FloatL.lean, Spine/C19.lean, Spine/RndSound.lean, Spine/C19Exec.lean only - never in a model or driver",
     ],
     "assumptions": ["A-strconv", "A-period", "A-time",
